@@ -1349,6 +1349,8 @@ def s_outside_module(rng, c):
 
 
 def s_multi_pkg(rng, c):
+    if any(f.pkg == "" for f in c.files):
+        return
     g = GoFile("other_pkg.go", "otherpkg")
     g.decls.append(("type", [TSpec("Stranger", ("struct", []))]))
     c.files.append(g)
@@ -1430,7 +1432,19 @@ def likely_outputs(c):
     return out
 
 
-STATE_DAMAGES = [s_outside_module, s_multi_pkg, s_no_go_files, s_extras, s_extras, s_extras]
+def s_no_pkg_clause(rng, c):
+    """a Go file without package clause (empty, or a comment only).  With -file this is the open finding
+    K_testfile_no_package_clause, so it is only generated for command lines without -file"""
+    if any(re.match(r"^--?file", a) for a in c.args) or not c.files or "s_multi_pkg" in c.labels:
+        return                    # (`go list` reports a directory that mixes packages differently when a file does not parse)
+    g = GoFile(rng.choice(["empty9.go", "aa_blank.go", "zz_todo.go"]), "")
+    g.raw = rng.choice(["", "\n", "// TODO: write this file\n"])
+    if not any(f.name == g.name for f in c.files):
+        c.files.append(g)
+        c.files.sort(key=lambda f: f.name)
+
+
+STATE_DAMAGES = [s_no_pkg_clause, s_outside_module, s_multi_pkg, s_no_go_files, s_extras, s_extras, s_extras]
 
 
 def fix_param_names(c):
@@ -1522,6 +1536,16 @@ def gen_case(rng, sub=None, ndamage=None):
         c.extra = {n: e for n, e in c.extra.items() if e[0] != "dangling"}
     if any(a in ("-r", "-raw", "-r=true") for a in c.args):
         c.uncertain = list(dict.fromkeys(c.uncertain + eligible(c)))
+    # an empty name in the -type list matches the first eligible type and is rendered with an empty type name
+    for k, a in enumerate(c.args):
+        v = None
+        m = re.match(r"^--?type=(.*)$", a)
+        if m:
+            v = m.group(1)
+        elif a in ("-type", "--type") and k + 1 < len(c.args):
+            v = c.args[k + 1]
+        if v and "" in v.split(","):
+            c.uncertain.append("")
     # a struct that embeds an uncertain one inherits its fields, hence the uncertainty
     unc = set(c.uncertain)
     grew = True
